@@ -173,6 +173,13 @@ def explore(ck: Check, full_sites: bool) -> None:
             ck.fail(binary_sig or f"{fam}-struct-reader", f"USAGE {u} PIC {pic}: EBCDIC reader {st['calcsize']} bytes, native reader {st['Struct']}", inp)
         if "Text" in st and st["Text"] != st["calcsize"]:
             ck.fail(f"{fam}-text-reader", f"USAGE {u} PIC {pic}: EBCDIC reader {st['calcsize']} bytes, text reader {st['Text']}", inp)
+        # the same readers on a schema node that carries only the COBOL text (no maxLength: e.g. the items of an elementary OCCURS)
+        if fam == "display" and st.get("Text-bare", st["calcsize"]) != st["calcsize"]:
+            ck.fail(f"{fam}-text-reader", f"USAGE {u} PIC {pic}: EBCDIC reader {st['calcsize']} bytes, text reader without maxLength "
+                                          f"{st['Text-bare']}", inp)
+        if fam == "display" and st.get("Struct-bare", st["calcsize"]) != st["calcsize"]:
+            ck.fail(f"{fam}-struct-reader", f"USAGE {u} PIC {pic}: EBCDIC reader {st['calcsize']} bytes, native reader without maxLength "
+                                            f"{st['Struct-bare']}", inp)
         # oracle 3: the item's own decoder accepts a field of that width
         if st["calcsize"].isdigit() and fam in ("display", "packed", "binary"):
             out = impl_unpack(u, pic, bytes(int(st["calcsize"])))
